@@ -1,7 +1,9 @@
 #!/bin/bash
-# usage: tools/sweep.sh <tier> <seeds...>   - runs every registered check, prints one line per run
+# usage: tools/sweep.sh <tier> <seeds...>   - runs every registered check, prints one line per run.
+# Under `vp run --with-repo` the checks import jesse from the snapshot ($VP_RUN_REPO), so /repo can be patched meanwhile.
 tier=$1; shift
 cd "$(dirname "$(readlink -f "$0")")/.." || exit 2
+[ -n "$VP_RUN_REPO" ] && export VERIF_REPO=$VP_RUN_REPO
 for s in "$@"; do
   for c in C01 C02 C03 C04 C05 C06 C07 C08 C09 C10 C11 C12 C13 C14 C15 C16 C17 C18 C19 C20; do
     t0=$(date +%s)
